@@ -517,6 +517,10 @@ func genHandover(t *rapid.T) HandoverCase {
 
 func TestCheck(t *testing.T) {
 	r := vlib.NewRunner(t, "C11")
+	// the tracking allocator behaves like the library's size-aligned allocator here: a buffer that has to move
+	// gets a new pointer object, the old one is retired (a caller that drops the returned pointer is a
+	// use-after-free with that allocator)
+	tracker.MovePointer = true
 	vlib.RunCheck(r, vlib.Check[c09.Case]{Name: "http-response", N: r.Pick(25000, 400000), Gen: genResp, Run: runResp})
 	vlib.RunCheck(r, vlib.Check[ParseCase]{Name: "http-parse", N: r.Pick(25000, 400000), Gen: genParse, Run: runParse})
 	vlib.RunCheck(r, vlib.Check[WSCase]{Name: "websocket", N: r.Pick(25000, 400000), Gen: genWS, Run: runWS})
@@ -548,6 +552,7 @@ func runConn(c ConnCase) vlib.Result {
 		vlib.Logs.Take()
 		res := vlib.Result{Classes: []string{"workload=conn-write-queue", "mode=" + c.Mode}}
 		tr := vlib.NewTracker()
+		tr.MovePointer = true
 		conf := nbio.Config{NPoller: 1, BodyAllocator: tr}
 		vlib.ApplyMode(&conf, c.Mode)
 		g := nbio.NewEngine(conf)
